@@ -40,7 +40,7 @@ type IPFIX struct {
 	port    int
 	addr    string
 	workers int
-	stop    bool
+	stop    uint32
 	stats   IPFIXStats
 	pool    chan chan struct{}
 }
@@ -155,7 +155,7 @@ func (i *IPFIX) run() {
 		i.dynWorkers()
 	}()
 
-	for !i.stop {
+	for atomic.LoadUint32(&i.stop) == 0 {
 		b := ipfixBuffer.Get().([]byte)
 		conn.SetReadDeadline(time.Now().Add(1e9))
 		n, raddr, err := conn.ReadFromUDP(b)
@@ -179,7 +179,7 @@ func (i *IPFIX) shutdown() {
 	}
 
 	// stop reading from UDP listener
-	i.stop = true
+	atomic.StoreUint32(&i.stop, 1)
 	logger.Println("stopping ipfix service gracefully ...")
 	time.Sleep(1 * time.Second)
 
